@@ -101,6 +101,11 @@ class TcpConnection(ABC):
         del mv
         return sent
 
+    def discard_buffer(self) -> None:
+        """Drops queued data which can no longer be delivered."""
+        self.buffer = []
+        self._num_buffer = 0
+
     def is_reusable(self) -> bool:
         return self._reusable
 
